@@ -30,7 +30,7 @@ RES_FAULTS = ("NOTFOUND", "ERR_BEFORE", "ERR_MID", "ERR_AFTER", "RET_FALSE_BEFOR
               "ERR_STOPITER", "NOTFOUND_MID")
 NET_FAULTS = ("HTTP_404", "HTTP_5XX", "CONN_ERR", "TIMEOUT", "HTTP_DROP_MID")
 FS_FAULTS = ("EIO", "ENOSPC", "SHORT_WRITE", "EMFILE", "SRC_MISSING", "RENAME_EIO", "DISK_FULL")
-PP_FAULTS = ("PP_ERR_BEFORE", "PP_ERR_MID", "PP_ERR_AFTER", "PP_INTERRUPT_MID")
+PP_FAULTS = ("PP_ERR_BEFORE", "PP_ERR_MID", "PP_ERR_AFTER", "PP_INTERRUPT_MID", "PP_NOTFOUND", "PP_NOTFOUND_AFTER")
 VAL_FAULTS = ("VALIDATE_FALSE", "VALIDATE_IOERROR", "VALIDATE_RAISE")
 ALL_FAULTS = RES_FAULTS + NET_FAULTS + FS_FAULTS + PP_FAULTS + VAL_FAULTS
 
@@ -92,6 +92,9 @@ class RunDirector(Director):
         for f in self.faults:
             f["_fired"] = False
         self.crash = dict(record["crash"]) if record.get("crash") else None
+        # a history may hold a second crash point (in a later operation: the process dies again while it is
+        # recovering from, or retrying after, the first crash)
+        self.crashes = [dict(c) for c in (record.get("crash"), record.get("crash2")) if c]
         self.clock_events = [dict(c) for c in record.get("clock_events", [])]
         self.sched_overrides = record.get("sched_overrides") or {}
         self.sched_choices = record.get("sched_choices") or {}
@@ -148,8 +151,9 @@ class RunDirector(Director):
             self.op_muts += 1
             if self.mut_trace is not None:
                 self.mut_trace.append((self.op, m, kind, path, n, actor.name))
-            c = self.crash
-            if c is not None and c["op"] == self.op and c["at"] == m and self.crash_fired is None:
+            c = next((x for x in self.crashes if x["op"] == self.op and x["at"] == m and not x.get("_fired")), None)
+            if c is not None:
+                c["_fired"] = True
                 torn = None
                 if kind == "write" and c.get("torn") is not None:
                     torn = int(c["torn"] * n)
@@ -587,8 +591,11 @@ class World:
             raise _rq.exceptions.Timeout("injected: timed out")
         data = self.store.current(res)
         if kind == "HTTP_5XX":
-            return FakeResponse(url, 503, b"unavailable", self)
-        if data is None or kind == "HTTP_404":
+            # (which 5xx / 4xx exactly: drawn with the fault - code that special-cases one status must meet it)
+            return FakeResponse(url, int(fault.get("status", 503)), b"unavailable", self)
+        if kind == "HTTP_404":
+            return FakeResponse(url, int(fault.get("status", 404)), b"not found", self)
+        if data is None:
             return FakeResponse(url, 404, b"not found", self)
         status, body = 200, data
         rng_hdr = (kwargs.get("headers") or {}).get("Range")
@@ -617,6 +624,11 @@ class World:
         kind = fault["kind"] if fault else None
         if kind == "PP_ERR_BEFORE":
             raise InjectedError("injected: post-processor failed before writing")
+        if kind == "PP_NOTFOUND":
+            # the post-processor needs a side-car object (an index, a mask) from the same store and that one is
+            # missing: the store's own not-found exception comes out of the post-processing step
+            from ocean_science_utilities.filecache.remote_resources import _RemoteResourceUriNotFound
+            raise _RemoteResourceUriNotFound("injected: side-car object needed by the post-processor not found")
         with open(filepath, "rb") as f:
             data = f.read()
         out = postprocess_bytes(data)
@@ -633,6 +645,9 @@ class World:
             f.write(out[half:])
         if kind == "PP_ERR_AFTER":
             raise InjectedError("injected: post-processor failed after writing")
+        if kind == "PP_NOTFOUND_AFTER":
+            from ocean_science_utilities.filecache.remote_resources import _RemoteResourceUriNotFound
+            raise _RemoteResourceUriNotFound("injected: side-car object needed by the post-processor not found (after rewriting)")
         return None
 
     def _validate(self, filepath):
@@ -1006,6 +1021,10 @@ class World:
         if crashed:
             obs.crashed = True
             self.stats["crashes"] += 1
+            if self.stats["crashes"] == 2:
+                self.stats["probes"]["second_crash_in_one_history"] = self.stats["probes"].get("second_crash_in_one_history", 0) + 1
+            if kind in ("OPEN", "REOPEN"):
+                self.stats["probes"]["crash_while_reopening"] = self.stats["probes"].get("crash_while_reopening", 0) + 1
             self.fs.h_force_close_owned_by({a.name for a in self.sched.actors})
             self.fs.fds.clear()
             self.sched.new_epoch()
